@@ -211,11 +211,10 @@ impl ServerCertVerifier for CustomCertVerifier {
                 Ok(ServerCertVerified::assertion())
             }
 
-            Err(rustls::Error::InvalidCertificate(rustls::CertificateError::NotValidForName))
-                if self.accept_invalid_hostnames =>
-            {
-                Ok(ServerCertVerified::assertion())
-            }
+            // Newer rustls reports the name mismatch with the expected and presented names attached.
+            Err(rustls::Error::InvalidCertificate(
+                rustls::CertificateError::NotValidForName | rustls::CertificateError::NotValidForNameContext { .. },
+            )) if self.accept_invalid_hostnames => Ok(ServerCertVerified::assertion()),
 
             upstream => upstream,
         }
